@@ -194,7 +194,7 @@ fn reader_probe(path: &str, format: ktio::seq::SeqFormat, items: &[String], show
         if it.next().as_ref().map(|r| show(r)).as_ref() != items.get(j + 1) { return Some(format!("next() after nth({}) differs", j)); }
         let mut it = open(); let mut got = vec![];
         for _ in 0..j { if let Some(x) = it.next() { got.push(show(&x)); } }
-        it.by_ref().for_each(|x| got.push(show(&x)));
+        it.for_each(|x| got.push(show(&x)));
         if got != items { return Some(format!("next x {} then for_each differs", j)); }
         if open().skip(j).next().as_ref().map(|r| show(r)).as_ref() != Some(&items[j]) { return Some(format!("skip({}) differs", j)); }
     }
